@@ -1193,3 +1193,52 @@ def _greedy_large_check(case):
     if case["dtype"] == "float64":
         cl.add("float64_scores")
     return Info(nontrivial="repeat_separated_by_blank" in cl, classes=sorted(cl))
+
+
+# ------------------------------------------------------------------ walks without a step limit that take long to end
+
+
+def _walk_unbounded_cases(tier):
+    quick = tier == "quick"
+
+    @st.composite
+    def _s(draw):
+        late = draw(st.sampled_from([130, 1030, 1100, 257, 1023, 1024, 1025] + ([] if quick else [2050, 4100])))
+        return {"big": "T", "late_eos": late, "eos": draw(st.sampled_from([0, 1, -1])), "max_iters": None,
+                "batch": draw(st.sampled_from([None, 1, 2])),
+                "lm_small": {"V": 2, "M": 3, "mult": 1, "C": draw(st.integers(1, 2)), "seed": draw(st.integers(0, 2 ** 31 - 1))},
+                "cond_seed": draw(st.integers(0, 2 ** 31 - 1)), "seed": draw(st.integers(0, 2 ** 31 - 1)),
+                "eos_bias": 0, "wrapper_batched": False, "validate_args": None, "cond_layout": "contiguous"}
+
+    return _s()
+
+
+@subcheck("C07", "walk_unbounded", _walk_unbounded_cases, 14, 120,
+          doc="RandomWalk with eos set and NO step limit over a model that counts its steps and all but forbids eos before step "
+              "130 .. 1100 (thorough .. 4100): the walk must run until its first eos, however late, and report the chained "
+              "log-probability of the whole path",
+          required_classes=["eos_after_1024_steps"])
+def _walk_unbounded_check(case):
+    from pydrobert.torch.modules import RandomWalk
+
+    small = dict(case["lm_small"])
+    late = case["late_eos"]
+    Tcap = late + 40
+    small.update(M=small["V"] + 2 + small["V"] * Tcap + 1, mult=1)
+    spec = declm.expand_spec(small)
+    V, C = spec["V"], len(spec["cond"])
+    e = case["eos"] % V
+    inc = (1 - e) + 1
+    for s_ in range(spec["M"]):
+        spec["table"][s_][e] = -160 if s_ < V + 1 + late * inc else 160
+    N = case["batch"] or 1
+    conds = dl.lcg_ints(case["cond_seed"], N, 0, C - 1)
+    pylm = declm.PyLM(spec)
+    lm = declm.HashLM(spec, cap=Tcap)
+    walk = RandomWalk(lm, case["eos"])
+    cl = set()
+    y, lens, lp = judge_walk(case, spec, lm, walk, conds, case["batch"], None, case["seed"], cl, pylm.chain,
+                             rel=max(1e-5, 4 * Tcap * 2.0 ** -24), wrapper=False)
+    if int(lens.max()) > 1024:
+        cl.add("eos_after_1024_steps")
+    return Info(nontrivial=True, classes=sorted(cl))
